@@ -18,7 +18,15 @@ Semantics (the crate is built with overflow-checks = false):
   a `let x: T;` without initialiser is only allowed when x is assigned in a loop body before it is read there and never read afterwards (it becomes a local of the body)
   `while`: a Fixpoint on a fuel argument returning an option of the tuple of the variables the body assigns; None = fuel exhausted.  The fuel of each loop is
   given by the caller (generator) and stated in the generated comment; a function with a loop returns an option
-  an f64 parameter may only be used as `<param>.floor() as i64`: the translated function takes that integer (floor of the argument) instead"""
+  an f64 parameter may only be used as `<param>.floor() as i64`: the translated function takes that integer (floor of the argument) instead
+
+Second part (methods of the compiled parser that return Result):
+  a first parameter `&self` / `&mut self` is dropped (self may only occur inside the argument of Err(..) and as the receiver of a call of a translated method)
+  Result<T, E> is `option T`: Ok(e) = Some e ; Err(<anything>) = None — the argument of Err (a ParseError struct literal, format!(..), self.parse_error(..),
+  self.idx, string literals) is skipped without being translated: the error KIND is all the hand models keep
+  `for i in a..b { .. }` with statically known bounds: a Fixpoint on fuel (b - a + 1) over i, i of type usize unless unified otherwise; the body may `return`
+  (inside an if block): the loop yields Model/RustInt.loop_res (LReturn r | LDone state | LFuel) and the caller continues with the statements after the loop on LDone
+  an `if` block that contains a `return` somewhere inside but does not end in one: the rest of the function is duplicated into both branches"""
 from __future__ import annotations
 
 import re
@@ -45,7 +53,7 @@ def zlit(v):
 
 
 # ---------------------------------------------------------------------------------------------- tokenizer
-TOK = re.compile(r"\s*(?:(\d[\d_]*(?:[iu](?:8|16|32|64|size))?)|([A-Za-z_]\w*)|(::|->|==|!=|<=|>=|&&|\|\||\+=|-=|\*=|/=|%=|\.\.=|\.\.|<<|>>|[-+*/%=<>!&|(){}\[\],;:.#?^~@$']))")
+TOK = re.compile(r"\s*(?:(\d[\d_]*(?:[iu](?:8|16|32|64|size))?)|([A-Za-z_]\w*)|(\"(?:[^\"\\]|\\.)*\")|(::|->|==|!=|<=|>=|&&|\|\||\+=|-=|\*=|/=|%=|\.\.=|\.\.|<<|>>|[-+*/%=<>!&|(){}\[\],;:.#?^~@$']))")
 
 
 def tokenize(text):
@@ -63,8 +71,10 @@ def tokenize(text):
             out.append(("int", m.group(1)))
         elif m.group(2):
             out.append(("id", m.group(2)))
+        elif m.group(3):
+            out.append(("str", m.group(3)))
         else:
-            out.append(("p", m.group(3)))
+            out.append(("p", m.group(4)))
         i = m.end()
     return out
 
@@ -78,7 +88,7 @@ class Parser:
         return self.t[self.i + k] if self.i + k < len(self.t) else ("eof", "")
 
     def at(self, val):
-        return self.peek()[1] == val and self.peek()[0] != "int"
+        return self.peek()[1] == val and self.peek()[0] not in ("int", "str")
 
     def eat(self, val=None, kind=None):
         tk = self.peek()
@@ -113,6 +123,13 @@ class Parser:
             self.eat(")")
             return ("tuple", ts)
         name = self.eat(kind="id")[1]
+        if name == "Result":
+            self.eat("<")
+            t = self.ty()
+            self.eat(",")
+            self.eat(kind="id")
+            self.eat(">")
+            return ("result", t)
         if name not in INTS and name not in ("bool", "f64"):
             raise Unsupported(f"type {name}")
         return name
@@ -122,6 +139,17 @@ class Parser:
         name = self.eat(kind="id")[1]
         self.eat("(")
         params = []
+        if self.at("&"):
+            self.eat("&")
+            if self.at("mut"):
+                self.eat()
+            self.eat("self")
+            if self.at(","):
+                self.eat(",")
+        elif self.at("self"):
+            self.eat("self")
+            if self.at(","):
+                self.eat(",")
         while not self.at(")"):
             p = self.eat(kind="id")[1]
             self.eat(":")
@@ -173,6 +201,14 @@ class Parser:
             self.eat()
             c = self.expr()
             return ("while", c, self.block())
+        if self.at("for"):
+            self.eat()
+            v = self.eat(kind="id")[1]
+            self.eat("in")
+            a = self.expr()
+            self.eat("..")
+            b = self.expr()
+            return ("for", v, a, b, self.block(), pos)
         if self.at("if"):
             self.eat()
             c = self.expr()
@@ -241,9 +277,22 @@ class Parser:
             elif self.at("."):
                 self.eat(".")
                 m = self.eat(kind="id")[1]
+                if not self.at("("):
+                    e = ("field", m, e)
+                    continue
                 self.eat("(")
+                args = []
+                while not self.at(")"):
+                    args.append(self.expr())
+                    if self.at(","):
+                        self.eat(",")
                 self.eat(")")
-                e = ("method", m, e)
+                if e == ("var", "self"):
+                    e = ("call", m, args)
+                elif args:
+                    raise Unsupported(f"method .{m}(...) with arguments")
+                else:
+                    e = ("method", m, e)
             else:
                 return e
 
@@ -278,6 +327,22 @@ class Parser:
             self.eat()
             if v in ("true", "false"):
                 return ("bool", v == "true")
+            if v == "Err" and self.at("("):
+                depth = 0
+                while True:
+                    tk = self.eat()
+                    if tk[0] == "p" and tk[1] in "([{":
+                        depth += 1
+                    elif tk[0] == "p" and tk[1] in ")]}":
+                        depth -= 1
+                        if depth == 0:
+                            break
+                return ("err",)
+            if v == "Ok" and self.at("("):
+                self.eat("(")
+                a = self.expr()
+                self.eat(")")
+                return ("ok", a)
             if self.at("::"):
                 self.eat("::")
                 f = self.eat(kind="id")[1]
@@ -351,6 +416,7 @@ class RustTr:
         raise Unsupported(f"rust {self.where}: {why}")
 
     def tv(self, key):
+        key = (self.fname, key)
         if key not in self.tvs:
             self.tvs[key] = TV()
         return self.tvs[key]
@@ -432,7 +498,7 @@ class RustTr:
             if e[1] not in self.funcs:
                 self.fail(f"call of {e[1]}, which is not a translated function")
             cn, ptys, rty, opt = self.funcs[e[1]]
-            if opt or len(ptys) != len(e[2]):
+            if (opt and not (isinstance(rty, tuple) and rty[0] == "result")) or len(ptys) != len(e[2]):
                 self.fail(f"call of {e[1]}: arity / a function with a loop cannot be called")
             args = []
             for a, pt in zip(e[2], ptys):
@@ -442,6 +508,11 @@ class RustTr:
             return V("(" + " ".join([cn] + args) + ")", rty)
         if k == "bin":
             return self.binary(e, env)
+        if k == "ok":
+            a = self.expr(e[1], env)
+            return V(f"(Some {atom(a.text)})", ("result", a.ty))
+        if k == "err":
+            return V("None", ("result", None))
         self.fail(f"expression form {k}")
 
     def binary(self, e, env):
@@ -583,6 +654,15 @@ class RustTr:
         return acc
 
     @staticmethod
+    def has_return(stmts):
+        for x in stmts:
+            if x[0] == "return":
+                return True
+            if x[0] == "ifs" and (RustTr.has_return(x[2]) or (x[3] and RustTr.has_return(x[3]))):
+                return True
+        return False
+
+    @staticmethod
     def exits(stmts):
         return bool(stmts) and stmts[-1][0] in ("return", "break")
 
@@ -642,7 +722,8 @@ class RustTr:
             v = self.expr(s[1], env)
             if self.ret_ty is not None:
                 self.check_ret(v)
-            return self.ret(v.text)
+            text = self.ret(v.text)
+            return self.ret_wrap(text) if self.ret_wrap else text
         if kind == "break":
             self.fail("break outside the recognised position (last statement of an if block of a loop body)")
         if kind == "expr":
@@ -651,11 +732,24 @@ class RustTr:
             return self.if_stmt(s, rest, env, k)
         if kind == "while":
             return self.while_stmt(s, rest, env, k)
+        if kind == "for":
+            return self.for_stmt(s, rest, env, k)
         self.fail(f"statement {kind}")
 
     def check_ret(self, v):
         want = self.ret_ty
-        if isinstance(want, tuple) and want[0] == "tuple":
+        if isinstance(want, tuple) and want[0] == "result":
+            if not (isinstance(v.ty, tuple) and v.ty[0] == "result"):
+                self.fail("returns a non-Result from a function returning Result")
+            inner, got = want[1], v.ty[1]
+            if got is not None and isinstance(inner, tuple) and inner[0] == "tuple":
+                if not (isinstance(got, tuple) and got[0] == "tuple" and len(got[1]) == len(inner[1])):
+                    self.fail("Ok(..) tuple shape")
+                for a, b in zip(got[1], inner[1]):
+                    self.unify(a, b)
+            elif got is not None and not isinstance(inner, tuple):
+                self.unify(got, inner)
+        elif isinstance(want, tuple) and want[0] == "tuple":
             if not (isinstance(v.ty, tuple) and v.ty[0] == "tuple" and len(v.ty[1]) == len(want[1])):
                 self.fail("returned tuple shape")
             for a, b in zip(v.ty[1], want[1]):
@@ -681,6 +775,10 @@ class RustTr:
             else:
                 a = self.block(th, env, k)
             b = self.block(rest, env, k)
+            return f"if {cv.text} then ({a}) else ({b})"
+        if self.has_return(th + (el or [])):
+            a = self.block(th + rest, env, k)
+            b = self.block((el or []) + rest, env, k)
             return f"if {cv.text} then ({a}) else ({b})"
         W = [w for w in self.assigned(th + (el or [])) if w in env]
         for blk in (th, el or []):
@@ -752,6 +850,51 @@ class RustTr:
         pat = state if len(W) == 1 else "(" + ", ".join("v_" + w for w in W) + ")"
         return f"match {call} with\n  | None => None\n  | Some {pat} =>\n  " + self.block(rest, env2, k) + "\n  end"
 
+    def for_stmt(self, s, rest, env, k):
+        _, var, a, b, body, pos = s
+        if self.loop_exit is not None or self.ret_wrap is not None:
+            self.fail("nested loops")
+        if not (isinstance(self.ret_ty, tuple) and self.ret_ty[0] == "result"):
+            self.fail("a for loop in a function that does not return Result")
+        av, bv = self.expr(a, env), self.expr(b, env)
+        ity = self.tv(("for", pos))
+        self.unify(av.ty, ity)
+        self.unify(bv.ty, ity)
+        if av.known is None or bv.known is None or bv.known < av.known:
+            self.fail("for loop whose bounds are not static constants a <= b")
+        fuel = bv.known - av.known + 1
+        W = [w for w in self.assigned(body) if w in env]
+        for x in body:
+            if x[0] in ("while", "for", "tail", "break"):
+                self.fail("loop / break / tail expression directly in a for body")
+        used = self.names_in(body, set())
+        R = [n for n in env if not n.startswith("__decl__") and n in used and n not in W and env[n].ty not in ("unset", "f64")]
+        self.nloops += 1
+        name = "@LOOP@"
+        state = "tt" if not W else ("v_" + W[0] if len(W) == 1 else "(" + ", ".join("v_" + w for w in W) + ")")
+        env_b = dict(env)
+        env_b[var] = V("v_" + var, ity)
+        self.ret_wrap = lambda t: f"LReturn {atom(t)}"
+        btxt = self.block(body, env_b, lambda env2: " ".join([name, "fuel'"] + ["v_" + r for r in R] + [f"(v_{var} + 1)"] + [atom(env2[w].text) for w in W]))
+        self.ret_wrap = None
+        params = " ".join(f"(v_{n} : {'bool' if env[n].ty == 'bool' else 'Z'})" for n in R) + f" (v_{var} : Z) " + " ".join(f"(v_{w} : Z)" for w in W)
+        sty = "unit" if not W else " * ".join("Z" for _ in W)
+        body_text = (f"Fixpoint {name} (fuel : nat) {params} : loop_res ({self.coq_ret}) ({sty}) :=\n  match fuel with\n  | O => LFuel\n  | S fuel' =>\n"
+                     f"    if (v_{var} <? {bv.text}) then (\n  {btxt})\n    else LDone {state}\n  end.\n")
+        if body_text in self.loop_cache:
+            real = self.loop_cache[body_text]
+        else:
+            real = f"{self.prefix}{self.fname}_for{len(self.loop_cache) + 1}"
+            self.loop_cache[body_text] = real
+            self.aux.append(f"(* {self.fname}: `for {var} in {av.text}..{bv.text}` (fuel {fuel}: one step per value and one for the exit test); "
+                            f"LReturn = the body returned, LDone = the range is exhausted *)\n" + body_text.replace("@LOOP@", real))
+        env2 = dict(env)
+        for w in W:
+            env2[w] = V("v_" + w, env[w].ty)
+        call = " ".join([real, str(fuel)] + ["v_" + r for r in R] + [atom(av.text)] + ["v_" + w for w in W])
+        pat = "_" if not W else state
+        return (f"match {call} with\n  | LReturn r => r\n  | LFuel => None\n  | LDone {pat} =>\n  " + self.block(rest, env2, k) + "\n  end")
+
     # ------------------------------------------------------------------ functions
     def function(self, fn, fuels=()):
         self.where = fn["name"]
@@ -765,8 +908,11 @@ class RustTr:
             self.fuels = list(fuels)
             self.nloops = 0
             self.loop_exit = None
+            self.ret_wrap = None
+            self.loop_cache = {}
             self.optional = False
             self.ret_ty = fn["ret"]
+            self.coq_ret = self.coq_type(fn["ret"])
             env = {}
             params = []
             for p, t in fn["params"]:
@@ -775,6 +921,8 @@ class RustTr:
                 env[p] = V("v_" + p, t)
                 params.append((p, t))
             has_loop = any(s[0] == "while" for s in fn["body"])
+            if has_loop and isinstance(fn["ret"], tuple) and fn["ret"][0] == "result":
+                self.fail("while loop in a function returning Result")
             if has_loop:
                 # the whole function is an option: decide before translating so that every return is wrapped
                 self.optional_fn = True
@@ -784,7 +932,7 @@ class RustTr:
         if self.fuels:
             self.fail("more fuels than loops")
         ret = fn["ret"]
-        coq_ret = "bool" if ret == "bool" else ("(" + " * ".join("Z" for _ in ret[1]) + ")" if isinstance(ret, tuple) else "Z")
+        coq_ret = self.coq_type(ret)
         if has_loop:
             coq_ret = f"option {coq_ret}"
         sig = " ".join(f"(v_{p} : {'bool' if t == 'bool' else 'Z'})" for p, t in params)
@@ -792,6 +940,16 @@ class RustTr:
         text = f"Definition {name} {sig} : {coq_ret} :=\n  {out}.\n"
         self.funcs[fn["name"]] = (name, [t for _, t in params], ret, has_loop)
         return text
+
+    @staticmethod
+    def coq_type(t):
+        if t == "bool":
+            return "bool"
+        if isinstance(t, tuple) and t[0] == "tuple":
+            return "(" + " * ".join(RustTr.coq_type(x) for x in t[1]) + ")"
+        if isinstance(t, tuple) and t[0] == "result":
+            return "option " + RustTr.coq_type(t[1])
+        return "Z"
 
     def translate_body(self, stmts, env, has_loop):
         # returns before the first loop must already be options in a function with a loop
